@@ -686,7 +686,7 @@ func c32Run(raw json.RawMessage) (res Result, err error) {
 	}
 	res.InDomain = inModel && obs.Code == 0
 	res.Tags = []string{"mode:" + in.Mode, fmt.Sprintf("trigs=%d", len(in.Trigs)), fmt.Sprintf("writers=%d", len(in.Writers)),
-		fmt.Sprintf("flushes=%d", bucket(len(obs.Flushes))), fmt.Sprintf("records=%d", bucket(nrec)), fmt.Sprintf("events=%d", bucket(nev))}
+		fmt.Sprintf("flushes=%d", c32Bk(len(obs.Flushes))), fmt.Sprintf("records=%d", c32Bk(nrec)), fmt.Sprintf("events=%d", c32Bk(nev))}
 	if !inModel {
 		res.Tags = append(res.Tags, "pattern-outside-model")
 	}
@@ -730,4 +730,16 @@ func init() {
 		Gen: c32Gen,
 		Run: c32Run,
 	})
+}
+
+func c32Bk(n int) int {
+	switch {
+	case n <= 2:
+		return n
+	case n <= 8:
+		return 8
+	case n <= 64:
+		return 64
+	}
+	return 1000
 }
